@@ -19,10 +19,10 @@ PROPS = {}
 PROPS["C14"] = dict(
     level="proof",
     technique="Lean 4 theorems (induction on the group list / strong induction on n) about a model of the VarInt encoder and two-phase decoder; model tied to code by exhaustive (<=2 bytes; <=3 bytes thorough) and boundary differential testing",
-    level_text="C14_dec_iff proves for every byte string and every natural that the decoder model accepts exactly `leb128 n ++ rest` with n < 2^64 (bijection, minimality, overflow, truncation, no over-read are corollaries); the encoder-as-written is proved equal to LEB128 with exact length. The model is the Rust control flow (collect/reverse/accumulate with the leading_zeros guard) and is compared with the real decoder on every string of <= 2 bytes (<= 3 in thorough), the 9/10/11-byte boundary families and random inputs. Session 4: C14_leb128_value, C14_shortest, C14_leb128_injective (the unique shortest string of a value), C14_spec_accept_iff, direct rejection theorems (C14_rejects_zero_group, _padded, _ge_2_64, _unterminated) and an error-kind / reader-position model varintE with C14_varintE_cases; all 16.8 M three-byte strings are compared with a positional reading in the quick tier.",
+    level_text="C14_dec_iff proves for every byte string and every natural that the decoder model accepts exactly `leb128 n ++ rest` with n < 2^64 (bijection, minimality, overflow, truncation, no over-read are corollaries); the encoder-as-written is proved equal to LEB128 with exact length. The model is the Rust control flow (collect/reverse/accumulate with the leading_zeros guard) and is compared with the real decoder on every string of <= 2 bytes (<= 3 in thorough), the 9/10/11-byte boundary families and random inputs. Session 4: C14_leb128_value, C14_shortest, C14_leb128_injective (the unique shortest string of a value), C14_spec_accept_iff, direct rejection theorems (C14_rejects_zero_group, _padded, _ge_2_64, _unterminated) and an error-kind / reader-position model varintE with C14_varintE_cases, C14_varintE_exclusive (exactly one of four shapes) and C14_no_overread_err (a failure depends on the bytes read only); all 16.8 M three-byte strings are compared with a positional reading in the quick tier; nine-byte strings ending in 0x00, every tenth byte after nine continuation bytes and five-byte strings around 2^32 are generated in every run, bare and as the version field of a transaction prefix / as a vector count.",
     level_note="Trusted: Lean kernel; the hand-written model's correspondence to encode.rs:319-384 is established by differential testing (exhaustive on short strings), not by proof; io::Cursor/Read semantics of std.",
     design_ref="DESIGN.md §6 C14",
-    rule="cases: exhaustive short strings, boundary families, encodings of boundary-biased u64 with suffix/truncation/non-minimal variants, random continuation-heavy strings.",
+    rule="cases: exhaustive short strings, boundary families (9/10/11 bytes, five bytes around 2^32; also embedded as the first field of a transaction prefix and as a vector count), encodings of boundary-biased u64 with suffix/truncation/non-minimal variants, random continuation-heavy strings.",
     assumptions=["model/Rust correspondence is differential (exhaustive for strings of <= 2 bytes, <= 3 bytes in thorough tier)"],
     gen_items=[],
 )
